@@ -216,6 +216,8 @@ func (r *StatusVectorChunk) Unmarshal(rawPacket []byte) error {
 
 	r.Type = TypeTCCStatusVectorChunk
 	r.SymbolSize = getNBitsFromByte(rawPacket[0], 1, 1)
+	// symbols left over from an earlier Unmarshal into the same value are not part of this chunk
+	r.SymbolList = nil
 
 	if r.SymbolSize == TypeTCCSymbolSizeOneBit {
 		for i := uint16(0); i < 6; i++ {
